@@ -129,7 +129,7 @@ theorem limitStage_prefix (o : Val) (docs out : List Val) (h : limitStage o docs
 /-! ### `$count` -/
 
 theorem countStage_ok (o : Val) (docs out : List Val) (h : countStage o docs = .ok out) :
-    ∃ s, o = .str s ∧ out = [.doc [(s, .int docs.length)]] := by
+    ∃ s, o = .str s ∧ out = (if docs.isEmpty then [] else [.doc [(s, .int docs.length)]]) := by
   cases o with
   | str s =>
     simp only [countStage] at h
@@ -139,7 +139,9 @@ theorem countStage_ok (o : Val) (docs out : List Val) (h : countStage o docs = .
       · cases h
       · split at h
         · cases h
-        · cases h; exact ⟨s, rfl, rfl⟩
+        · split at h
+          · rename_i he; cases h; exact ⟨s, rfl, by simp [he]⟩
+          · rename_i he; cases h; exact ⟨s, rfl, by simp [he]⟩
   | _ => simp [countStage] at h
 
 end MongoModel.Pipe.Proofs
